@@ -32,6 +32,11 @@ def gen_scenario(rng, opts=None):
         once = rng.random() < 0.45
         jobs.append({"call": 5 if once else 0, "timings": [["c", rng.choice([1, 1, 2, 30]) * S]],
                      "tags": sorted(rng.sample([1, 2, 3], rng.randint(0, 2)))})
+        if rng.random() < 0.15:
+            jobs[-1]["raises"] = True
+    if rng.random() < 0.3:
+        for j in rng.sample(jobs, min(2, len(jobs))):
+            j["pass_sched"] = True           # callbacks are handed their scheduler as an argument
     nthreads = rng.randint(2, 4)
     threads = []
     # 15%: overlapping exec_jobs calls on a small population of jobs that have never run
